@@ -26,7 +26,7 @@ CHECKS = {
         "model_checking",
         "the same bounded-exhaustive test enumeration; every reported counterexample is re-read independently from the solver's reply files, re-encoded to calldata and executed on a reference EVM",
         "Every failing test of the hash-free part of the C03 grammar (incl. the guards that need refinement: mul, div, mod, sdiv, exp) is run end to end with three solver syntaxes (yices decimal (_ bvN W), yices #b, z3 #x) "
-        "and --dump-smt-directory. Every model halmos reports must equal an independent s-expression read of one of the solver replies on disk, the printed Counterexample lines must show those values, every sat reply on "
+        "and --dump-smt-directory. Dynamic-parameter tests also run with a single length candidate per parameter, and two different contracts with the same test names are run into one --dump-smt-directory. Every model halmos reports must equal an independent s-expression read of one of the solver replies on disk, the printed Counterexample lines must show those values, every sat reply on "
         "disk is re-read with halmos's parser and compared, a reply that interprets an f_evm_ abstraction must not be labelled valid, and every model labelled valid is re-encoded (ABI encoder written here) and executed on the "
         "reference EVM from the reference post-setUp state: it must end in the reported assertion failure.",
         "Trusted: mc/refevm.py, mc/refcheats.py, the s-expression reader and ABI encoder in props/c04_cex.py / mc/testgen.py. Tests whose solver call times out give no model and make no claim.",
@@ -37,7 +37,7 @@ CHECKS = {
         "model_checking",
         "bounded-exhaustive enumeration of store/load programs over a grammar of location expressions, each run by the real SEVM.run in both storage layouts and compared with a flat-dict reference EVM for every key valuation of a colliding domain; complete sweep of the precomputed hash tables",
         "Every SSTORE/SLOAD/TSTORE/TLOAD program of length <= 3 (thorough: 3 over the full location alphabet) over location expressions (scalars, mappings, nested mappings, "
-        "dynamic arrays, struct offsets, packed-key mappings; the same slot written as a run-time hash of concrete data, of symbolic data, and as the precomputed "
+        "dynamic arrays, struct offsets, packed-key mappings, mappings with a 96-byte key; the same slot written as a run-time hash of concrete data, of symbolic data, and as the precomputed "
         "constant plus offset, with commuted/re-associated additions) is executed by the real SEVM.run in the solidity and generic layouts; for every valuation of "
         "the symbolic keys x,y in {0,1,2} (colliding with the concrete keys) the loaded values must equal a flat 2^256-slot dictionary with real keccak, and every "
         "valuation must be covered by a reported path. The same programs also run with the account's storage symbolic (vm.enableSymbolicStorage): the reference then starts from the admissible initial state 'every slot holds 0x77', so a never-written slot must read 0x77 on some reported path and a written one its last write. Every entry of halmos/hashes.py is recomputed with keccak and OffsetMap is probed against a dict model.",
@@ -53,7 +53,7 @@ CHECKS = {
         "out-of-bounds RETURNDATACOPY/STOP) is assembled into one contract per node. Each node returns a fixed-layout record of what it observes "
         "(CALLER, ORIGIN, ADDRESS, CALLVALUE, storage, transient storage, balance, child success flags, RETURNDATASIZE and child records) and the root "
         "finally dumps storage/transient/balance/code of every account; the whole record must equal the reference EVM's for x in {0,1,balance,balance+1}. "
-        "Further families: callees whose outcome branches on the symbolic input with caller writes after the call, value-bearing self-calls, and two creations at the same address (same CREATE2 salt and init code that reverts iff it receives no value: a failed creation must leave no account behind, a successful one makes the second collide). Stuck paths and uncovered inputs are violations too.",
+        "Further families: callees whose outcome branches on the symbolic input with caller writes after the call, value-bearing self-calls, two creations at the same address (same CREATE2 salt and init code that reverts iff it receives no value: a failed creation must leave no account behind, a successful one makes the second collide). Stuck paths and uncovered inputs are violations too.",
         "Trusted: mc/refevm.py call/create semantics (Appendix B.1), mc/calltree.py generator. Created addresses are abstract (taken from halmos's trace, "
         "consistency checked through later reads).",
         "DESIGN.md §4 C09",
@@ -66,7 +66,7 @@ CHECKS = {
         "symbolic locations, keccak, logs, copies, branches incl. comparisons of a hash with itself plus a constant, symbolic-address EXTCODE*/BALANCE/CALL, terminators; thorough adds L=3 over a 39-statement alphabet) in both storage layouts is "
         "executed symbolically once. For every input of the grid (x,y in 6 boundary values colliding with the grammar's constants, callvalue, caller, "
         "balances) and every reported non-stuck path whose constraints evaluate to true, the claimed error kind, return data (whole memory + probes "
-        "of every touched slot) and logs must equal the reference EVM's run of the same bytecode.",
+        "of every touched slot) and logs must equal the reference EVM's run of the same bytecode. Each path is also evaluated under a valuation in which every initial storage/balance array that must read as zero holds a non-zero value: a path that is still satisfied reads such an array without its zero-initialisation axiom and must still agree with the EVM.",
         "Trusted: mc/refevm.py, mc/symeval.py (standard interpretation of keccak and f_evm_*). Documented halmos modelling assumptions are inputs to the "
         "oracle. Claimed for the stated grammar and depths only; calls/creations are covered by C09.",
         "DESIGN.md §4 C01",
@@ -128,7 +128,7 @@ CHECKS = {
         "Programs: `i = 0; while (i < n) i++; if (i == K) Panic(1)` in two loop shapes (exit on the taken branch / back edge on the taken branch), nested loops, concrete trip counts 0..6, a concrete loop containing a symbolic branch, a four-path test, a test whose failing path is long, a test with an unsupported opcode on one branch; "
         "configurations --loop 1,2,3,6, --width 1,2,3, --depth 40,100, a scripted solver answering unknown / garbage for the stuck-path query. Placements: regular check_* tests, setUp() (concrete and fresh-symbol trip counts), target functions spin/spind(uint256) called during invariant testing at depth 1..3, and two contracts "
         "with the same test signature run in one process. Oracle per test: if the brute force on the reference EVM finds a failing input within the bounds and halmos reports PASS, a warning naming the limit must have been logged for that test (or bounded loops reported); tests with only concrete loop conditions must be FAIL and never "
-        "carry a loop-bound warning; a path stopped at an unsupported opcode - in the test or in setUp(), at the top level or 1-3 call frames deep - must never leave the test a clean PASS; a symbolic setUp() loop of which exactly one successful path survives the cut must carry the loop-bound warning.",
+        "carry a loop-bound warning; a path stopped at an unsupported opcode - in the test or in setUp(), at the top level or 1-3 call frames deep - must never leave the test a clean PASS; a symbolic setUp() loop of which exactly one successful path survives the cut must carry the loop-bound warning; in invariant mode the warning is demanded for every invariant test that relies on a cut frontier, whichever runs first.",
         "Trusted: mc/refevm.py, mc/invgen.py BFS, the program generators in props/c10_bounds.py, mc/solverstub.py. Warnings are read from the halmos loggers (rebinding of handlers in the harness process).",
         "DESIGN.md §4 C10",
         "A",
@@ -150,7 +150,7 @@ CHECKS = {
         "Every signature with 1-3 parameters over ABI type trees (base types uint256, uint8, int128, address, bool, bytes4, bytes32, bytes, string; T[], T[1], T[2], tuples; nesting <= 3) x 8 configurations "
         "(--default-array-lengths / --default-bytes-lengths / --array-lengths incl. unordered lists and per-name overrides; named parameters and the unnamed ones solc emits as "") is built by halmos.calldata.mk_calldata. The result is flattened to (constant byte | byte k of symbol s) atoms "
         "and, for every combination of candidate lengths, decoded by an ABI decoder written from the specification: offsets concrete and in range, every leaf a whole, distinct, otherwise unused symbol, leaf regions disjoint, every size "
-        "symbol heading exactly one length word. A generated reader program (CALLDATALOAD of every length word) is run on the real SEVM, also with a second symbolic calldata registered on the same path: the returned length tuples must be "
+        "symbol heading exactly one length word. A generated reader program (CALLDATALOAD of every length word) is run on the real SEVM, also with a second symbolic calldata registered on the same path and with the calldata created on a parent path that the executing path extends: the returned length tuples must be "
         "exactly the product of the candidate lists. Unsupported types (fixedMxN, ufixed, function) must raise.",
         "Trusted: the atom flattener and ABI decoder in props/c12_calldata.py. Narrow types are full-word symbols by design (documented over-approximation). Products above 512 combinations are restricted to all-min, all-max and single deviations (counted as capped).",
         "DESIGN.md §4 C12",
@@ -173,7 +173,7 @@ CHECKS = {
         "bounded-exhaustive enumeration of prank-family operation sequences, state-cheatcode cases and fresh-symbol requests (all widths), each run by the real SEVM.run and compared for every input / tape value with a reference EVM carrying Foundry's cheatcode state machine",
         "Prank: every sequence of length <= 3 (thorough 4) over prank(a), prank(a,o), startPrank(a), startPrank(a,o), stopPrank(), prank(x) with a symbolic address, CALL/STATICCALL to an observer that calls a second observer, CREATE of an observer, an intervening cheatcode call, a helper frame issuing its own prank and a call to an observer that returns on two paths (so that the pranking frame resumes twice); "
         " every observed (msg.sender, tx.origin) pair - in the callee, in the callee's callee and in constructors - must equal the reference state machine, and halmos may stop with an internal error only where Foundry rejects the sequence (prank over an active prank). State: deal, store/load, etch, warp, roll, fee, chainId, "
-        "coinbase, difficulty with concrete and symbolic arguments, issued from the root or a nested frame, then every relevant opcode read in the same and in another frame on the targeted and on another account; deal/store/load also through a fresh symbolic address that vm.assume pins to an existing account. Fresh symbols: createUint/createInt/randomUint/randomInt for bit widths 1..256 (quick: 17 boundary widths), "
+        "coinbase, difficulty with concrete and symbolic arguments, issued from the root or a nested frame, then every relevant opcode read in the same and in another frame on the targeted and on another account; a block value set before a fork and again, differently, on each side; store/deal followed by (re-)etching and reads; vm.addr over valid secp256k1 keys (equal keys equal addresses, different keys different ones, the real address of a concrete key); deal/store/load also through a fresh symbolic address that vm.assume pins to an existing account. Fresh symbols: createUint/createInt/randomUint/randomInt for bit widths 1..256 (quick: 17 boundary widths), "
         "bytes/string sizes {0,1,31,32,33,65}, all fixed-type creators, min/max pairs over boundary words: symbol width, zero/sign extension, range constraints, ABI layout and pairwise independence checked against an input-tape reference for every tape value of a grid.",
         "Trusted: mc/refcheats.py (Foundry prank rules, cheatcode effects, tape semantics of fresh values), mc/refevm.py, mc/symeval.py. DELEGATECALL under prank, console calls, balances above 2^128 and cheatcodes issued in frames that later revert are outside the alphabet.",
         "DESIGN.md §4 C14",
@@ -182,7 +182,7 @@ CHECKS = {
     "C15": (
         "model_checking",
         "bounded-exhaustive enumeration of generated invariant-testing projects (target function sets x invariants x depth 0..3 x filter combinations), each run end to end by the real run_contract; verdicts, cached frontier states and explored calls compared with a breadth-first search over all call sequences on a reference EVM",
-        "Projects: a test contract whose setUp() CREATEs 1-2 targets built from {inc, dec, set(uint8), rng(uint8), setb(uint8), step, pay, tick, own, bad, dbl} (all subsets of size <= 2, selected / thorough all triples), invariants s != c, s <= 1, t <= 1, t <= block.timestamp (time never runs backwards along a sequence), --invariant-depth 0..3, and for a two-target project every "
+        "Projects: a test contract whose setUp() CREATEs 1-2 targets built from {inc, dec, set(uint8), rng(uint8), setb(uint8), step, pay, tick, own, bad, dbl} plus {setw, eq5, fwd} (a stored word compared with a constant by one function and forwarded into a nested call by another) (all subsets of size <= 2, selected / thorough all triples), invariants s != c, s <= 1, t <= 1, t <= block.timestamp (time never runs backwards along a sequence), --invariant-depth 0..3, and for a two-target project every "
         "combination (quick: up to two kinds at a time) of targetSenders/excludeSenders/targetContracts/excludeContracts/targetSelectors (incl. several entries for one address)/excludeSelectors. The reference runs the same bytecode on mc/refevm.py: BFS over all sequences of admitted calls with arguments, senders, "
         "msg.value and timestamp increments from small domains that are complete for this grammar. Oracles: an invariant broken by a sequence of <= d calls <=> halmos FAIL at depth d; every target state reached by the reference in k calls is an instance of a cached frontier state of depth <= k (storage terms and path "
         "conditions grounded over a finite assignment domain), so over-merging, an off-by-one in the depth loop or a dropped target shows up as an unrepresented state; every call recorded in the frontier call sequences is admitted by Foundry's filter rules; a reachable assertion failure inside a target must be reported and fail; every counterexample marked valid is turned back into a concrete call sequence (calldata, senders, values and the timeline from the model) and replayed on the reference EVM, where every call must succeed and the invariant must then fail.",
@@ -193,9 +193,9 @@ CHECKS = {
     "C16": (
         "model_checking",
         "explicit-state exploration of every history of solve_end_to_end calls over a small id alphabet against a scripted ground-truth solver with every core shape, plus a cache-off/cache-on differential of generated many-path tests with real solvers, forced garbage collections and a cache-key invariant",
-        "Histories: all sequences of <= 3 (thorough 4) queries (non-empty subsets of four assertion ids, plus a 30-id scenario) on one shared SolvingContext, for four ground-truth families of unsatisfiable id sets and six core shapes (minimal, whole query, with an (error ...) line, wrapped over several lines as yices prints long cores, "
+        "Histories: all sequences of <= 3 (thorough 4) queries (non-empty subsets of four textually nested assertion ids 7/71/171/27, plus a 30-id scenario) on one shared SolvingContext, for four ground-truth families of unsatisfiable id sets and six core shapes (minimal, whole query, with an (error ...) line, wrapped over several lines as yices prints long cores, "
         "empty, garbage). The real dump / from_result / parse_unsat_core / check_unsat_cores / solve_end_to_end run; only the solver subprocess is replaced in-process. Invariants after every call: the answer equals the ground truth, and a query is answered without consulting the solver only if it is unsatisfiable in the ground truth. "
-        "Unsat results are handed to the real CounterexampleHandler._solve_end_to_end_callback, which decides what is cached. Differential: two hand-written contracts with ground-truth verdicts (paths decided only by the refined query; a path that is infeasible only through the implicit constraint balance >= value) and generated tests with 6..40 paths per function (infeasible branches whose contradiction the external solver must find, sharing or not sharing conditions; vm.assume-based variants) and nested/sequential guard tests are run by run_contract with z3 and yices, cache off and on, every branching query answered `unknown` so that "
+        "Unsat results are handed to the real CounterexampleHandler._solve_end_to_end_callback, which decides what is cached. Differential: three hand-written contracts with ground-truth verdicts (one of them 16 tests whose unsat cores are over test-local conditions, also run with reclamation only between tests) (paths decided only by the refined query; a path that is infeasible only through the implicit constraint balance >= value) and generated tests with 6..40 paths per function (infeasible branches whose contradiction the external solver must find, sharing or not sharing conditions; vm.assume-based variants) and nested/sequential guard tests are run by run_contract with z3 and yices, cache off and on, every branching query answered `unknown` so that "
         "infeasible paths reach the solver, with and without a forced gc.collect() before every condition is appended: verdicts and counterexample sets must be equal, every real cache hit is re-solved without the cache and must be unsat, and an assertion id named by a cached core must never come to denote a different condition.",
         "Trusted: the ground-truth solver and the re-solve with /usr/bin/z3 in props/c16_cache.py. Both layers use halmos's own done-callback to append cores (in the history layer on a bare FunctionContext carrying args, solver_outputs and the solving context).",
         "DESIGN.md §4 C16",
@@ -222,7 +222,7 @@ CHECKS = {
         "command line}, each built by the real argparse/TOML parsers and setting the option or not with values that include the falsy ones (0, empty string, '*', false), is resolved and compared with the reference fold (source rank, then recency). "
         "--solver-command vs --solver over all source pairs and both application orders. Every value of the structured grammars (timeouts with units and fractions, error-code sets, array-length maps, CSV lists, trace events) round-trips through "
         "unparse/parse and through the `python -m halmos.config` TOML emission + TomlParser; 58 malformed strings must be rejected by the parser, the command line and the config file. Annotation scoping: generated projects with every subset of "
-        "five annotation placements over two contracts that share function signatures x toml x command line are run through halmos.__main__._main (stub forge) and the configuration every setUp()/test actually receives is compared with the fold.",
+        "five annotation placements over two contracts that share function signatures x toml x command line are run through halmos.__main__._main (stub forge) and the configuration every setUp()/test actually receives - value and the source it is attributed to - is compared with the fold.",
         "Trusted: the reference fold (Appendix B.4) and the option value tables in props/c18_config.py. The scoping observation rebinds halmos.__main__.run_test/setup in the harness process (no source hook).",
         "DESIGN.md §4 C18",
         "A",
@@ -243,8 +243,8 @@ CHECKS = {
     "C20": (
         "model_checking",
         "explicit-state exploration of test histories (every ordered subset / doubling of the tests of a generated contract, repeated runs in one process, three injective symbol-suffix generators), each executed by the real run_contract and compared test by test with the solo result and with a brute force on a reference EVM",
-        "One generated contract with twelve tests chosen to expose leaks: a failing and a passing test, a test that writes the storage variable every other test reads, a test that computes keccak(p) at run time and a test that reads the constant slot keccak(p) written by setUp, two tests that re-read calldata after a branch (one can never "
-        "fail, one fails for exactly one input: sibling-path isolation), two invariant tests sharing the frontier cache, and a pair for configuration layers (a test that needs three loop iterations under the contract-level annotation --loop 4, a test with the function-level annotation --loop 1). Histories: every test doubled, every ordered pair, selected (thorough: all) ordered triples, the full list in both orders; a subset again with reversed and multiplicative uid() generators and run twice in one process. "
+        "One generated contract with fourteen tests chosen to expose leaks: a failing and a passing test, a test that writes the storage variable every other test reads, a test that computes keccak(p) at run time and a test that reads the constant slot keccak(p) written by setUp, two tests that re-read calldata after a branch (one can never "
+        "fail, one fails for exactly one input: sibling-path isolation), two invariant tests sharing the frontier cache, a pair reading the code size / code hash of a symbolic address created in setUp (alias candidates), and a pair for configuration layers (a test that needs three loop iterations under the contract-level annotation --loop 4, a test with the function-level annotation --loop 1). Histories: every test doubled, every ordered pair, selected (thorough: all) ordered triples, the full list in both orders; a subset again with reversed and multiplicative uid() generators and run twice in one process. "
         "Oracle: the normalised result of every test in every history (exit code, path counts, number of counterexamples, validity flags, replay outcome of each valid counterexample on the reference EVM, bounded loops) equals its solo result; solo results agree with a brute force (PASS: no failing input; FAIL: expected input set; invariant verdicts at depth 2).",
         "Trusted: mc/refevm.py, mc/e2e.py, mc/invgen.py. Concrete model values are not compared across runs (a solver may return any model): their replay is. uid() is rebound in the harness process (seam).",
         "DESIGN.md §4 C20",
